@@ -1,7 +1,7 @@
 (* Property C16 — search and replace act on the text exactly as the regular expression says.
    Statements only; each is closed by [exact] of a lemma proved in TreeProof*.v.  Model: Tree.v / TreeNF.v.
    [re.subn(pattern, new, ·)] is ANY function [subn : str -> str * nat]: every pattern, every replacement. *)
-From Coq Require Import List ZArith Bool. Import ListNotations.
+From Coq Require Import List ZArith Bool Lia. Import ListNotations.
 Require Import WS WSnfproof Tree TreeNF TreeProof TreeProof2 TreeProof3 TreeProof4 TreeProof8 TreeProof10.
 
 (* replace(pattern, new): every text node becomes re.subn of itself, the markup stays where it is *)
@@ -88,6 +88,43 @@ Proof.
   repeat split. cbn [own_text flat_map]. now rewrite app_nil_r.
 Qed.
 Print Assumptions C16_search_family_own_text.
+(* the law tying the two halves of the API: search positions index the very string that text_at slices, so
+   text_at applied to the pair returned by search_first is the matched text (a search running on a normalised or re-encoded COPY of the text breaks it) *)
+Theorem C16_search_text_at_law : forall find n s e, search_first_ find n = Some (s, e) ->
+  s <= e <= length (own_text n) ->
+  find (own_text n) = Some (s, e) /\
+  text_at_ n (Z.of_nat s) (Some (Z.of_nat e)) = firstn (e - s) (skipn s (own_text n)).
+Proof.
+  intros find n s e H [L1 L2]. split; [exact H|].
+  assert (I : forall L k, idx L (Z.of_nat k) = Nat.min k L)
+    by (intros L k; unfold idx; destruct (Z.ltb_spec (Z.of_nat k) 0); [lia|now rewrite Nat2Z.id]).
+  assert (E1 : (Z.of_nat s <? 0)%Z = false) by (apply Z.ltb_ge; lia).
+  assert (E2 : (Z.of_nat e <? Z.of_nat s)%Z = false) by (apply Z.ltb_ge; lia).
+  unfold text_at_. rewrite E1, E2. unfold sl. rewrite !I.
+  replace (Nat.min s (length (own_text n))) with s by lia. replace (Nat.min e (length (own_text n))) with e by lia. reflexivity.
+Qed.
+Print Assumptions C16_search_text_at_law.
+
+(* the script level (odfdo-replace: search_replace calls replace ONCE on the body): whatever containers are nested in
+   the body — paragraphs inside footnotes, comments, text boxes, list items, table cells — every text run of the result is
+   re.subn of the corresponding source run, exactly once, and the markup is untouched *)
+Theorem C16_script_body_once : forall subn body,
+  texts (content (fst (repl subn false body))) = map (fun s => fst (subn s)) (texts (content body))
+  /\ skeleton (content (fst (repl subn false body))) = skeleton (content body)
+  /\ snd (repl subn false body) = list_sum (map (fun s => snd (subn s)) (texts (content body))).
+Proof.
+  intros subn body. rewrite (proj1 (repl_plain_flat subn body)). split; [apply replace_texts|]. split; [apply replace_skeleton|apply repl_count].
+Qed.
+Print Assumptions C16_script_body_once.
+(* a walk that reaches a nested paragraph a second time applies the substitution to its own output: not the same thing
+   as soon as the replacement re-creates a match ("a" -> "aa") *)
+Theorem C16_walk_twice_differs : exists subn evs, replace_ev subn (replace_ev subn evs) <> replace_ev subn evs.
+Proof.
+  exists (fun s => match s with [Ch 0] => ([Ch 0; Ch 0], 1) | [Ch 0; Ch 0] => ([Ch 0; Ch 0; Ch 0; Ch 0], 2) | _ => (s, 0) end), [Txt [Ch 0]].
+  vm_compute. discriminate.
+Qed.
+Print Assumptions C16_walk_twice_differs.
+
 (* F28 + F103 on the PINNED code: the search ran over inner_text + tail *)
 Definition C16_search_own_text_pinned : Prop :=
   forall find n, plain_tree n = true -> search_pinned_ find n = option_map fst (find (readable_ev (content n))).
